@@ -114,7 +114,13 @@ def ns_scenario(seed, n, profile="swarm"):
         kwargs["reparameterisations"] = {"rescaletobounds": {"parameters": names, "update_bounds": True}}
     elif rp < 0.55:
         kwargs["reparameterisations"] = {"null": {"parameters": names}}
-    elif rp < 0.6:
+    elif rp < 0.68 and model["name"] in ("gauss", "gauss_quantised", "gauss_sloppy_prior"):
+        # uniform priors: rejection sampling in the rescaled space with the prime prior (no bounds check there)
+        kwargs["reparameterisations"] = {"rescaletobounds": {"parameters": names, "update_bounds": True,
+                                                             "prior": "uniform"}}
+        kwargs["training_frequency"] = r.choice([5, 10])
+        kwargs["cooldown"] = 5
+    elif rp < 0.72:
         kwargs["fallback_reparameterisation"] = r.choice(["rescaletobounds", None, "zscore"])
     if kwargs.get("flow_proposal_class") in ("AugmentedFlowProposal", "AugmentedGWFlowProposal"):
         # the augmented proposal needs a mask: coupling flows only
